@@ -126,6 +126,10 @@ def rand_root(rng, ids_, allow_tf=True):
         t = rand_node(rng, ids_, d, allow_tf)
         while t["k"] != "tag":
             t = rand_node(rng, ids_, d, allow_tf)
+        if rng.random() < 0.2 and t["name"] not in ("script", "style"):
+            # the document's own element names as ordinary roots (an <html> element is an element like any other)
+            t["name"] = rng.choice(["html", "html", "body", "head"])
+            t["via_fn"] = False
         return ("tag", t)
     if r < 0.6:
         return ("list", {"k": "list", "t": "taglist", "c": [rand_node(rng, ids_, d - 1, allow_tf) for _ in range(rng.randint(0, 4))]})
